@@ -90,6 +90,17 @@ func c04prop(ev *evid.Rec) func(rt *rapid.T) {
 					live = append(live, l)
 				}
 			}
+			if rapid.IntRange(0, 5).Draw(rt, fmt.Sprintf("refusedCreate%d", i)) == 0 {
+				// an administrator tries to create an account whose file cannot be written; the request is refused, so no
+				// such account exists - whatever password the refused request carried
+				e := c04edit{kind: "create-refused", login: rapid.SampledFrom([]string{"ops/bob", strings.Repeat("M", 250)}).Draw(rt, fmt.Sprintf("refusedLogin%d", i)), newPw: rapid.SampledFrom(c04Passwords).Draw(rt, fmt.Sprintf("refusedPw%d", i))}
+				if _, ok := pw[e.login]; !ok {
+					oldPw[e.login] = e.newPw
+					editedNames = append(editedNames, e.login)
+					edits = append(edits, e)
+				}
+				continue
+			}
 			if len(live) == 0 {
 				break
 			}
@@ -294,6 +305,13 @@ func c04prop(ev *evid.Rec) func(rt *rapid.T) {
 						sfld(hlref.FUserName, "N-"+e.login), hlref.F(hlref.FUserAccess, allAccess[:])})))
 				case "delete":
 					r = obs[0].Request(hlref.TranDeleteUser, hlref.F(hlref.FUserLogin, hlref.Obfuscate([]byte(e.login))))
+				case "create-refused":
+					r = obs[0].Request(hlref.TranNewUser, hlref.F(hlref.FUserLogin, hlref.Obfuscate([]byte(e.login))), sfld(hlref.FUserName, "Refused"),
+						hlref.F(hlref.FUserPassword, hlref.Obfuscate([]byte(e.newPw))), hlref.F(hlref.FUserAccess, func() []byte { a := hlref.AccessOf(hlref.PrivDownloadFile, hlref.PrivReadChat); return a[:] }()))
+					if okReply(r) {
+						rt.Fatalf("harness: creation of an account whose file cannot be written (%q) was not refused", e.login)
+					}
+					continue
 				}
 				if !okReply(r) {
 					rt.Fatalf("harness: account edit %+v refused: %s", e, replySummary(r))
